@@ -1,8 +1,14 @@
 #!/bin/sh
-# offline setup: make sure hypothesis is importable from /venv (it normally already is)
+# offline setup: make sure hypothesis is importable from /venv (it normally already is) and put atheris
+# (optional coverage-guided engine, used by C13) into /verif/.deps; nothing is fetched from a network
 set -e
 if ! /venv/bin/python -c "import hypothesis" 2>/dev/null; then
     PIP_NO_INDEX=1 /venv/bin/pip install --no-index --find-links /opt/veriftools/wheels hypothesis
 fi
 /venv/bin/python -c "import hypothesis, sys; print('hypothesis', hypothesis.__version__)"
-mkdir -p /verif/evidence /verif/replays
+mkdir -p /verif/evidence /verif/replays /verif/.deps
+if ! PYTHONPATH=/verif/.deps /venv/bin/python -c "import atheris" 2>/dev/null; then
+    PIP_NO_INDEX=1 /venv/bin/pip install -q --no-index --find-links /opt/veriftools/wheels --target /verif/.deps atheris \
+        || echo "atheris not installable: the fuzzing sub-check of C13 will be skipped (Hypothesis + enumeration still decide it)"
+fi
+PYTHONPATH=/verif/.deps /venv/bin/python -c "import atheris; print('atheris ok')" || true
